@@ -786,6 +786,19 @@ def gen_pins() -> None:
     px.check_pin(PID, "c11_wsgi.txt", "\n\n".join(parts) + "\n", "FileWrapper / wrap_file / _RangeWrapper as modelled in C11/Model.v")
 
     sf = px.find_def(utils, "send_file")
+    # the automatic ETag of a path: full-resolution mtime, size, adler32 of the path - each component named
+    auto = [n for n in ast.walk(sf) if isinstance(n, ast.Call) and norm(n.func) == "rv.set_etag" and n.args
+            and isinstance(n.args[0], ast.JoinedStr)]
+    if len(auto) != 1:
+        raise px.Unsupported("send_file: the automatic ETag is no longer one rv.set_etag(f'...') call")
+    comps = [norm(v.value) for v in auto[0].args[0].values if isinstance(v, ast.FormattedValue)]
+    if comps != ["mtime", "size", "check"]:
+        raise px.Unsupported(f"send_file: the automatic ETag is built from {comps}, not from the full-resolution mtime, the size "
+                             "and the checksum of the path: representations that differ in the dropped component share a validator")
+    assigns = {norm(n) for n in ast.walk(sf) if isinstance(n, ast.Assign)}
+    for want_a in ("mtime = stat.st_mtime", "size = stat.st_size", "check = adler32(path.encode()) & 4294967295"):
+        if want_a not in assigns:
+            raise px.Unsupported(f"send_file: `{want_a}` no longer occurs (component of the automatic ETag)")
     blocks = [norm(n) for n in ast.walk(sf) if isinstance(n, ast.If) and norm(n.test) in
               ("conditional", "isinstance(etag, str)", "last_modified is not None", "size is not None", "file is None")]
     parts = [sk(px.find_class(exc, "RequestedRangeNotSatisfiable"), {"units: str='bytes'": "units: str=<T1:unsatisfiable_units>"}),
@@ -2378,6 +2391,70 @@ def run_send_file(chk: Check, add) -> None:
             chk.count(f"send_file:status:{obs['status']}")
             chk.case(("send_file", model_line(c, whttp.parse_date)), nontrivial=True)
     chk.count("send_file", n)
+    send_file_versions(chk)
+
+
+def send_file_versions(chk: Check) -> None:
+    """the automatic validators of send_file tell two versions of a file apart whenever mtime (at the file system's
+    resolution) or size differ: the old ETag must not produce a 304, nor let a Range + If-Range through"""
+    import tempfile
+    from werkzeug.test import EnvironBuilder
+    from werkzeug.utils import send_file
+    from werkzeug.exceptions import RequestedRangeNotSatisfiable
+    from .vlib import BUILD
+    rng = chk.rng
+    n = 40 if chk.tier == "quick" else 400
+    with tempfile.TemporaryDirectory(prefix="c11-versions-", dir=BUILD) as tmp:
+        for i in range(n):
+            path = os.path.join(tmp, f"v{i}.bin")
+            size = rng.randint(1, 30)
+            a = bytes(rng.randint(0, 255) for _ in range(size))
+            kind = ["subsecond", "size", "seconds"][i % 3]
+            t1 = (1767268800 + rng.randint(0, 10 ** 6)) * 10 ** 9 + 100_000_000
+            if kind == "subsecond":
+                b, t2 = bytes((x + 1) % 256 for x in a), t1 + 300_000_000         # same size, same second
+            elif kind == "size":
+                b, t2 = a + b"x", t1                                              # same mtime, one byte more
+            else:
+                b, t2 = bytes((x + 1) % 256 for x in a), t1 + 2 * 10 ** 9        # same size, two seconds later
+            inp = {"via": "send_file-versions", "kind": kind, "a": a.hex(), "b": b.hex(), "mtime1_ns": t1, "mtime2_ns": t2}
+
+            def call(headers=()):
+                env = EnvironBuilder(headers=list(headers)).get_environ()
+                try:
+                    rv = send_file(path, env, mimetype="application/octet-stream")
+                except RequestedRangeNotSatisfiable:
+                    return 416, None, b"", None
+                body = b"".join(rv.response) if rv.status_code not in (304,) else b""
+                out = rv.status_code, rv.headers.get("ETag"), body, rv.headers.get("Content-Range")
+                rv.close()
+                return out
+            with open(path, "wb") as f:
+                f.write(a)
+            os.utime(path, ns=(t1, t1))
+            if os.stat(path).st_mtime_ns != t1:
+                chk.count("send_file-versions:coarse-file-system")        # no sub-second mtime here: nothing to tell
+                continue
+            _, etag1, _, _ = call()
+            with open(path, "wb") as f:
+                f.write(b)
+            os.utime(path, ns=(t2, t2))
+            _, etag2, _, _ = call()
+            if etag1 is None or etag2 is None or etag1 == etag2:
+                chk.fail("send_file-etag-stale", f"send_file gives two versions of a file ({kind} differs) the same ETag {etag1!r}", inp)
+            st, _, body, cr = call([("If-None-Match", etag1 or "")])
+            if st != 200 or body != b:
+                chk.fail("send_file-etag-stale", f"If-None-Match with the ETag of the previous version ({kind} differs) answered {st}, "
+                                                 f"the current body is {'sent' if body == b else 'not sent'}", inp)
+            st, _, body, cr = call([("Range", "bytes=0-0"), ("If-Range", etag1 or "")])
+            if st != 200 or body != b or cr is not None:
+                chk.fail("send_file-etag-stale", f"Range + If-Range with the ETag of the previous version ({kind} differs) answered "
+                                                 f"{st} {cr!r}", inp)
+            st, _, body, cr = call([("If-None-Match", etag2 or "")])
+            if st != 304:
+                chk.fail("304-incomplete", f"If-None-Match with the current automatic ETag answered {st}", inp)
+            chk.case(("send_file-versions", i, kind))
+    chk.count("send_file-versions", n)
 
 
 def replay(rep) -> int:
